@@ -1282,3 +1282,32 @@ def b_bytearray(ex, state, args, kwargs, sv):
     CPython; item assignment on the result is outside the modelled subset and reported as unsupported)"""
     ex.notes["assumed"].add("bytearray values are only read (modelled as immutable octet sequences)")
     return b_bytes(ex, state, args, kwargs, sv)
+
+
+# ------------------------------------------------------------------------------------------ re (constant patterns)
+@builtin("re.compile")
+def b_re_compile(ex, state, args, kwargs, sv):
+    from .regex import Compiled
+    p = args[0]
+    if len(args) != 1 or kwargs or not (isinstance(p, VStr) and z3.is_string_value(p.t)):
+        raise Unsupported("re.compile of a non-constant pattern / with flags")
+    return VRegex(Compiled(p.t.as_string()))
+
+
+def _re_test(which):
+    def f(ex, state, args, kwargs, sv):
+        """match object (opaque, truthy) or None; only acceptance is modelled (no groups)"""
+        v = args[0]
+
+        def one(a):
+            if not isinstance(a, VStr):
+                ex.raise_if(state, z3.BoolVal(True), "TypeError")
+            lang = sv.compiled.match_lang if which == "match" else sv.compiled.full_lang
+            ok = z3.InRe(a.t, lang)
+            return mk_union([(ok, VOpaque(fresh_name("matchobj"))), (z3.Not(ok), VNone)])
+        return ex.dist(state, [v], one)
+    return f
+
+
+BUILTINS["regex.match"] = _re_test("match")
+BUILTINS["regex.fullmatch"] = _re_test("fullmatch")
